@@ -3,6 +3,7 @@ package c09
 import (
 	"bufio"
 	"fmt"
+	"os"
 
 	"verifharness/internal/proto"
 )
@@ -270,6 +271,15 @@ func genPersist(rng *proto.RNG, tier string, shard, nshards int, w *bufio.Writer
 	}
 	if tier == "smoke" {
 		lenCore, lenWide, lenPair, nrand = 3, 2, 2, 20
+	}
+	// C03 re-runs this suite for the launch-before-replay clause only; it asks for one size step less
+	// (the full sweep stays C09's).
+	if os.Getenv("VERIF_PERSIST_LITE") != "" && tier != "smoke" {
+		if tier == "thorough" {
+			lenCore, lenWide, lenPair, nrand = 7, 5, 4, 600
+		} else {
+			lenCore, lenWide, lenPair, nrand = 5, 4, 3, 300
+		}
 	}
 	for thr := 1; thr <= 4; thr++ {
 		exhaustive(e, alphaCore, thr, lenCore, "core")
